@@ -288,7 +288,8 @@ fn mesh_checks(mut cx: Ctx, v: Vec<Point3>, f: Vec<[u32; 3]>) -> Verdict {
             !Topo::of(v.len(), &pf).vertex_only_contact
         });
     cx.label_if(topo.vertex_only_contact && per_patch_clean && topo.manifold && topo.consistent, "patches_touching_in_a_vertex");
-    if topo.manifold && topo.consistent && per_patch_clean {
+    if topo.manifold && per_patch_clean {
+        cx.label_if(!topo.consistent, "patch_boundary_inconsistent_winding");
         match guarded(|| mesh.get_patch_boundary_points().map_err(|e| e.to_string())) {
             Ok(Ok(loops)) => {
                 let mut used: Vec<((u64, u64, u64), (u64, u64, u64))> = vec![];
@@ -304,6 +305,9 @@ fn mesh_checks(mut cx: Ctx, v: Vec<Point3>, f: Vec<[u32; 3]>) -> Verdict {
                 exp.sort();
                 ensure!(used == exp, "C12/patch_boundary_points/edges_exactly_once", "patch boundary loops do not cover each boundary edge exactly once ({} vs {} edges)", used.len(), exp.len());
             }
+            // faces wound against their neighbours give boundary edges whose directions do not chain; the walk may refuse
+            // such a patch, but loops it does return must still be the boundary, each edge once
+            Ok(Err(_)) if !topo.consistent => cx.label("patch_boundary_inconsistent_refused"),
             Ok(Err(e)) => return Verdict::fail("C12/patch_boundary_points/rejected_clean", format!("clean mesh rejected: {e}")),
             Err(m) => return Verdict::fail("C12/patch_boundary_points/panic", m),
         }
